@@ -46,6 +46,9 @@ var c09Jobs = []c09Item{
 	{name: "idupper", text: "  idupper:\n    runs-on: ubuntu-latest\n    steps:\n      - id: Cache\n        run: echo\n      - id: BUILD\n        run: echo ${{ steps.cache.outcome }}\n"},
 	{name: "idlower", text: "  idlower:\n    runs-on: ubuntu-latest\n    steps:\n      - id: build\n        run: echo\n      - id: cache\n        run: echo ${{ steps.BUILD.outcome }} ${{ steps.nope.outcome }}\n"},
 	{name: "idsame", text: "  idsame:\n    runs-on: ubuntu-latest\n    steps:\n      - id: Cache\n        run: echo\n      - id: CACHE\n        run: echo\n"},
+	// references to steps at JOB-level keys (the steps context holds nothing there, whatever job
+	// stood before)
+	{name: "jobkeysteps", text: "  jobkeysteps:\n    runs-on: ubuntu-latest\n    if: steps.s1.outputs.x == 'a'\n    env:\n      V: ${{ steps.s1.conclusion }} ${{ steps.cache.outputs.y }}\n    timeout-minutes: ${{ steps.s.outputs.n }}\n    steps:\n      - run: echo\n"},
 	{name: "outjob", text: "  outjob:\n    runs-on: ubuntu-latest\n    outputs:\n      o1: ${{ steps.s.outputs.v }}\n    steps:\n      - id: s\n        run: echo\n"},
 	{name: "outuser", deps: []string{"outjob"}, text: "  outuser:\n    needs: outjob\n    runs-on: ubuntu-latest\n    steps:\n      - run: echo ${{ needs.outjob.outputs.o1 }} ${{ needs.outjob.outputs.o2 }}\n"},
 	{name: "broken", text: "  broken:\n    steps:\n      - run: echo ${{ nosuch }}\n      - uses: actions/checkout@v4\n        with:\n          bogus: 1\n"},
@@ -229,7 +232,7 @@ func TestVerifC09(t *testing.T) {
 	r.Bounds["step_sequence_length"] = stepLen
 	r.Bounds["expression_sequence_length"] = exprLen
 	r.Bounds["jobs"], r.Bounds["steps"], r.Bounds["expressions"] = len(c09Jobs), len(c09Steps), len(c09Exprs)
-	r.Extra["rule"] = "libraries of 33 jobs, 13 steps and 21 expression strings that write rule state (linted with scripted shellcheck / pyflakes enabled; matrix with .*, shell defaults, runner platform, conflicting labels, duplicate ids, needs, outputs, erroneous items); every sequence without repetition up to the length bound in file order; each item's diagnostics (relative positions) compared with the item alone plus its declared dependencies (needed jobs / earlier id-carrying steps); a slice of job pairs under every single map-order deviation. class = (family, item, has diagnostics); non-trivial = the item has diagnostics"
+	r.Extra["rule"] = "libraries of 34 jobs, 13 steps and 21 expression strings that write rule state (linted with scripted shellcheck / pyflakes enabled; matrix with .*, shell defaults, runner platform, conflicting labels, duplicate ids, needs, outputs, erroneous items); every sequence without repetition up to the length bound in file order; each item's diagnostics (relative positions) compared with the item alone plus its declared dependencies (needed jobs / earlier id-carrying steps); a slice of job pairs under every single map-order deviation. class = (family, item, has diagnostics); non-trivial = the item has diagnostics"
 	r.Extra["assumptions"] = []string{"dependencies of a step are the earlier steps that carry an id (verbatim), of a job its needed jobs; everything else counts as unrelated", "line numbers echoed in messages are compared relative to the item"}
 	families := []*c09Family{
 		{name: "jobs", header: "on: pull_request\njobs:\n", items: c09Jobs},
